@@ -18,7 +18,7 @@ META = {
 def check(ctx):
     q = ctx.quick()
     lc.run_lc(ctx, "C05",
-              emit_cfgs=[("1ecu4", "Lc_emit_1ecu4.cfg")] if q else [("1ecu5", "Lc_emit_1ecu5.cfg"), ("2ecu3", "Lc_emit_2ecu3_full.cfg")],
+              emit_cfgs=([("1ecu4", "Lc_emit_1ecu4.cfg")] if q else [("1ecu5", "Lc_emit_1ecu5.cfg"), ("2ecu3", "Lc_emit_2ecu3_full.cfg")]) + lc.EPOCH_CFGS,
               mc_cfgs=[] if q else [("2ecu4", "LcDetector.tla", "Lc_2ecu4.cfg")],
               driver_args=["--regressions", "--random", "400" if q else "8000", "--max-len", "40" if q else "120",
                            "--big-tables", "3" if q else "40", "--file-max", "600" if q else "6000"],
